@@ -25,12 +25,82 @@ def extract(cfg, repo="/repo"):
 _cache = {}
 
 
+def _canon_impl_paths(text):
+    """`module::<impl some::Type<Args>>::method` -> `some::Type::<Args>::method`: an inherent method is named by its type,
+    wherever the impl block is written (rustc prints the short form only for impl blocks in the type's own module)"""
+    import re
+    out = []
+    pos = 0
+    pat = re.compile(r"[A-Za-z_][A-Za-z0-9_]*(?:::[A-Za-z_][A-Za-z0-9_]*)*::<impl ")
+    while True:
+        m = pat.search(text, pos)
+        if not m:
+            out.append(text[pos:])
+            break
+        i = m.end() - len("<impl ")
+        depth = 0
+        j = i
+        while j < len(text):
+            c = text[j]
+            if c == "<":
+                depth += 1
+            elif c == ">":
+                depth -= 1
+                if depth == 0:
+                    break
+            elif c == '"':
+                j = len(text)
+                break
+            j += 1
+        if j >= len(text) or text[j + 1:j + 3] != "::":
+            out.append(text[pos:m.end()])
+            pos = m.end()
+            continue
+        inner = text[i + len("<impl "):j]
+        if " for " in inner or inner.startswith(("&", "(", "[", "dyn ")):
+            out.append(text[pos:m.end()])
+            pos = m.end()
+            continue
+        k = inner.find("<")
+        canon = inner if k < 0 else inner[:k] + "::" + inner[k:]
+        out.append(text[pos:m.start()])
+        out.append(canon)
+        pos = j + 1
+    return "".join(out)
+
+
+def _normalise(text):
+    """make the facts independent of *where* crate items are written: (1) inherent methods are named by their type;
+    (2) a type / trait / static that was moved to another module of the crate (its simple name still unique) is given
+    the path it has in the pinned tree (rules/homes.json), everywhere it occurs"""
+    import re
+    text = _canon_impl_paths(text)
+    try:
+        homes = json.load(open(os.path.join(V, "rules", "homes.json")))
+    except OSError:
+        return text
+    d = json.loads(text)
+    have = {"adt": [a["def"] for a in d.get("adts", [])], "trait": [t_["def"] for t_ in d.get("traits", [])], "static": [s["def"] for s in d.get("statics", [])]}
+    moves = {}
+    for kind, table in homes.items():
+        present = set(have.get(kind, []))
+        for name, home in table.items():
+            if home in present:
+                continue
+            cands = [p for p in present if p.split("::")[-1] == name]
+            if len(cands) == 1:
+                moves[cands[0]] = home
+    for src in sorted(moves, key=len, reverse=True):
+        text = re.sub(r"(?<![A-Za-z0-9_:])" + re.escape(src) + r"(?![A-Za-z0-9_])", moves[src], text)
+    return text
+
+
 def load(cfg, repo="/repo"):
     key = (cfg, repo)
     if key not in _cache:
         path = extract(cfg, repo)
         with open(path) as f:
-            _cache[key] = Facts(json.load(f), cfg, path)
+            _cache[key] = Facts(json.loads(_normalise(f.read())), cfg, path)
     return _cache[key]
 
 
@@ -47,6 +117,14 @@ class Facts:
 
     def fn(self, name):
         return self.fns.get(name)
+
+    def callee_fn(self, t):
+        """the crate-local function a call terminator goes to (resolved instance first, then the declared callee)"""
+        for key in ("resolved", "callee"):
+            c = t.get(key)
+            if c and c in self.fns:
+                return self.fns[c]
+        return None
 
     def find_fns(self, pred):
         return [f for f in self.d["fns"] if pred(f)]
